@@ -6,6 +6,7 @@ use crate::cli::{self, Scratch};
 use crate::core::{Cfg, Report, Sink};
 use crate::engine::{self, Grid};
 use crate::librun::{self, Diag, Input, Outcome};
+use crate::props::langkit::{self, FormKind, Kit, Layout, Renderer, Seg, Tags};
 use crate::props::rules::first_line;
 use serde_json::{Value, json};
 use std::sync::{Arc, OnceLock};
@@ -158,16 +159,7 @@ pub fn applicable(c: &Case) -> bool {
 pub fn build(c: &Case) -> Built {
     let indent = ["", "  ", "\t"][c.indent as usize];
     let (open, close) = c.host.delims();
-    let attrs = match c.rule {
-        Rule::Sorted => "keep-sorted".to_string(),
-        Rule::SortedRegex => "keep-sorted keep-sorted-pattern=\"k(?P<value>[a-z]\\d)\"".to_string(),
-        Rule::Unique => "keep-unique".to_string(),
-        Rule::UniqueRegex => "keep-unique=\"k(?P<value>[a-z]\\d)\"".to_string(),
-        Rule::Pattern => "line-pattern=\"^[^!]*$\"".to_string(),
-        Rule::LineCount => "line-count=\"<1\"".to_string(),
-        Rule::Lua => format!("check-lua=\"{}\"", lua_script()),
-        Rule::Affects => "affects=\":missing\"".to_string(),
-    };
+    let attrs = rule_attrs(c.rule);
     let mut text = String::new();
     if c.host.markdown() {
         text.push_str("# Title\n\n");
@@ -211,7 +203,7 @@ pub fn build(c: &Case) -> Built {
         let plain_key = if offending {
             match c.rule {
                 Rule::Unique | Rule::UniqueRegex => "m1".to_string(),
-                Rule::Pattern => "a0!".to_string(),
+                Rule::Pattern => "a0%".to_string(),
                 _ => "a0".to_string(),
             }
         } else {
@@ -341,6 +333,193 @@ fn check_case(c: &Case, cfg: Option<&Cfg>, sink: &Sink) {
     }
 }
 
+/// Second space: the same rules in every comment form of every grammar's construction kit (all 39
+/// registered suffixes), every applicable tag layout of the kit, LF and CRLF line ends.
+#[derive(Clone, Debug, PartialEq, Eq, Hash)]
+pub struct KitCase {
+    pub grammar: &'static str,
+    pub file: u8,
+    pub form: u8,
+    pub layout: Layout,
+    pub crlf: bool,
+    pub rule: Rule,
+    pub position: u8,
+}
+
+/// A one-line content line of the kit's language holding `text`: a comment of the kit's simplest
+/// form (a paragraph in Markdown), so that the whole trimmed line is the key of plain rules.
+fn kit_line(kit: &Kit, text: &str) -> String {
+    if let Some(f) = kit.forms.iter().find(|f| f.kind == FormKind::Line) {
+        format!("{} {text}", f.open)
+    } else if kit.forms.iter().any(|f| f.kind == FormKind::Md) {
+        format!("{text} text")
+    } else {
+        let f = kit.forms.iter().find(|f| f.kind == FormKind::Block).expect("block form");
+        format!("{} {text} {}", f.open, f.close)
+    }
+}
+
+fn kit_applicable(c: &KitCase) -> bool {
+    let Some(kit) = langkit::kit(c.grammar) else { return false };
+    if c.file as usize >= kit.files.len() {
+        return false;
+    }
+    let seg = Seg::Comment { form: c.form, layout: c.layout, tags: Tags::Open };
+    if !Renderer::applicable(kit, &[], 1, false, Some(&Seg::Code(0)), &seg) {
+        return false;
+    }
+    let form = kit.forms[c.form as usize];
+    if form.kind == FormKind::Md && form.open == "(" && matches!(c.rule, Rule::SortedRegex | Rule::UniqueRegex) {
+        return false; // a title delimited by parentheses cannot hold the group's parentheses
+    }
+    if !c.rule.key_range() && c.position != 0 {
+        return false;
+    }
+    if matches!(c.rule, Rule::Sorted | Rule::SortedRegex | Rule::Unique | Rule::UniqueRegex) && c.position == 0 {
+        return false;
+    }
+    true
+}
+
+fn build_kit(c: &KitCase) -> Built {
+    let kit = langkit::kit(c.grammar).expect("kit");
+    let mut r = Renderer::new(kit, c.crlf);
+    r.extra_attrs = format!(" {}", rule_attrs(c.rule));
+    r.seg(&Seg::Code(0));
+    r.comment(c.form as usize, c.layout, Tags::Open);
+    let n = (c.position as usize + 1).max(2);
+    let mut key = None;
+    for i in 0..n {
+        let offending = i == c.position as usize && c.rule.key_range();
+        let plain_key = if offending {
+            match c.rule {
+                Rule::Unique | Rule::UniqueRegex => "m1".to_string(),
+                Rule::Pattern => "a0%".to_string(),
+                _ => "a0".to_string(),
+            }
+        } else {
+            format!("m{}", i + 1)
+        };
+        let (line, range) = match c.rule {
+            Rule::SortedRegex | Rule::UniqueRegex => {
+                let line = kit_line(kit, &format!("é pre k{plain_key} post"));
+                let at = line.find(&format!("k{plain_key}")).expect("key") + 1;
+                (line, (at, at + plain_key.len()))
+            }
+            _ => {
+                let line = kit_line(kit, &plain_key);
+                let len = line.len();
+                (line, (0, len))
+            }
+        };
+        let start = r.offset();
+        r.raw(&line);
+        if offending {
+            key = Some((start + range.0, start + range.1));
+        }
+    }
+    let out = r.finish();
+    let b = out.blocks.first().expect("one block");
+    Built { text: out.text.clone(), lt: b.lt, gt: b.gt, key }
+}
+
+fn rule_attrs(rule: Rule) -> String {
+    match rule {
+        Rule::Sorted => "keep-sorted".to_string(),
+        Rule::SortedRegex => "keep-sorted keep-sorted-pattern=\"k(?P<value>[a-z]\\d)\"".to_string(),
+        Rule::Unique => "keep-unique".to_string(),
+        Rule::UniqueRegex => "keep-unique=\"k(?P<value>[a-z]\\d)\"".to_string(),
+        Rule::Pattern => "line-pattern=\"^[^%]*$\"".to_string(),
+        Rule::LineCount => "line-count=\"<1\"".to_string(),
+        Rule::Lua => format!("check-lua=\"{}\"", lua_script()),
+        Rule::Affects => "affects=\":missing\"".to_string(),
+    }
+}
+
+fn check_kit_case(c: &KitCase, sink: &Sink) {
+    if !kit_applicable(c) {
+        return;
+    }
+    let kit = langkit::kit(c.grammar).expect("kit");
+    let built = build_kit(c);
+    let file = kit.files[c.file as usize];
+    let input = json!({"kit_case": format!("{c:?}")});
+    sink.exec();
+    let diff = (c.rule == Rule::Affects).then(|| cli::new_file_diff(file, &built.text));
+    let outcome = librun::run(&Input { files: vec![(file.to_string(), built.text.clone())], diff, ..Default::default() });
+    let describe = |extra: &str| format!("{c:?}: {extra}\n--- {file} ---\n{}", built.text);
+    let form = kit.forms[c.form as usize];
+    let tagged = format!("{}:{:?}{}:{:?}{}", c.grammar, form.kind, form.open.replace(' ', "_"), c.layout, if c.crlf { ":crlf" } else { "" });
+    let diags: Vec<&Diag> = match &outcome {
+        Outcome::Report { diags, blocks } => {
+            if blocks.len() != 1 {
+                sink.machinery(describe(&format!("scaffold yields {} blocks", blocks.len())));
+                return;
+            }
+            diags.iter().filter(|d| d.code == c.rule.code()).collect()
+        }
+        Outcome::Error { message, .. } => {
+            sink.outcome(format!("kit:{}:{:?}:error", c.grammar, c.rule));
+            sink.fail(format!("C10:kit:unexpected-error:{:?}:{tagged}", c.rule), describe(&first_line(message)), input);
+            return;
+        }
+        Outcome::Panic { message } => {
+            sink.fail(format!("C10:kit:panic:{}", first_line(message)), describe(message), input);
+            return;
+        }
+    };
+    let [d] = diags.as_slice() else {
+        sink.outcome(format!("kit:{}:{:?}:diagnostics={}", c.grammar, c.rule, diags.len()));
+        sink.fail(format!("C10:kit:expected-one-diagnostic:{:?}:{tagged}", c.rule), describe(&format!("{} {} diagnostics: {:?}", diags.len(), c.rule.code(), outcome.to_json())), input);
+        return;
+    };
+    let (want_start, want_end, what) = if c.rule.key_range() {
+        let (a, b) = built.key.expect("key range");
+        (built.position(a), built.position(b - 1), "offending key")
+    } else {
+        (built.position(built.lt), built.position(built.gt), "start tag")
+    };
+    let got = d.range;
+    let ok = (got.0, got.1) == want_start && (got.2, got.3) == want_end;
+    sink.outcome(format!("kit:{}:{:?}:{}", c.grammar, c.rule, if ok { "exact" } else { "off" }));
+    if !ok {
+        let kind = if (got.0, got.2) != (want_start.0, want_end.0) { "wrong-line" } else { "wrong-columns" };
+        sink.fail(
+            format!("C10:kit:{kind}:{}:{tagged}", if c.rule.key_range() { "key" } else { "tag" }),
+            describe(&format!("the {what} is at {}:{}–{}:{} but the diagnostic says {}:{}–{}:{}", want_start.0, want_start.1, want_end.0, want_end.1, got.0, got.1, got.2, got.3)),
+            input,
+        );
+    }
+    sink.nontrivial();
+    if c.position <= 1 && c.file == 0 && !c.crlf && c.rule == Rule::Pattern {
+        sink.sample(|| json!({"kit_case": format!("{c:?}"), "file": built.text, "expected_range": [want_start.0, want_start.1, want_end.0, want_end.1]}));
+    }
+}
+
+pub fn all_kit_cases() -> Vec<KitCase> {
+    let layouts = [Layout::Bare, Layout::Noisy, Layout::Multi(0), Layout::Multi(1), Layout::Multi(2), Layout::Indented, Layout::SameLine, Layout::Trailing];
+    let mut cases = Vec::new();
+    for kit in langkit::KITS {
+        for file in 0..kit.files.len() as u8 {
+            for form in 0..kit.forms.len() as u8 {
+                for layout in layouts {
+                    for crlf in [false, true] {
+                        for rule in Rule::ALL {
+                            for position in 0..3u8 {
+                                let c = KitCase { grammar: kit.grammar, file, form, layout, crlf, rule, position };
+                                if kit_applicable(&c) {
+                                    cases.push(c);
+                                }
+                            }
+                        }
+                    }
+                }
+            }
+        }
+    }
+    cases
+}
+
 pub fn all_cases() -> Vec<Case> {
     let mut cases = Vec::new();
     for host in Host::ALL {
@@ -375,10 +554,20 @@ pub fn run(cfg: &Cfg, sink: &Arc<Sink>) -> Report {
     let n = cases.len();
     let cfg2 = cfg.clone();
     report.phase(engine::explore("layouts × rules", &format!("{n} cases (full product of the applicable combinations)"), Grid { cases, check: move |c: &Case, s: &Sink| check_case(c, Some(&cfg2), s) }, sink, cfg.threads, false));
+    let cases = all_kit_cases();
+    let n = cases.len();
+    report.phase(engine::explore("every kit comment form × rules", &format!("{n} cases: 23 grammars (all 39 suffixes) × every comment form of the grammar's kit × tag layouts {{bare, noisy with multi-byte text, line 1/2/3 of a 3-line comment, indented, content on the tag's line, trailing a code line}} × LF/CRLF × 8 rules × offending line 1..3; content lines are comments of the language"), Grid { cases, check: |c: &KitCase, s: &Sink| check_kit_case(c, s) }, sink, cfg.threads, false));
     report
 }
 
 pub fn replay(cfg: &Cfg, input: &Value, sink: &Arc<Sink>) {
+    if let Some(want) = input["kit_case"].as_str() {
+        match all_kit_cases().into_iter().find(|c| format!("{c:?}") == want) {
+            Some(c) => check_kit_case(&c, sink),
+            None => sink.machinery("replay: unknown kit case"),
+        }
+        return;
+    }
     let want = input["case"].as_str().unwrap_or("");
     match all_cases().into_iter().find(|c| format!("{c:?}") == want) {
         Some(c) => check_case(&c, Some(cfg), sink),
